@@ -67,20 +67,21 @@ def _batch(draw):
     if widths == "sweep":  # 40..200 in steps of 4 with a drawn offset, so that all residues are visited across batches
         widths = ["unset"] + list(range(40 + draw(st.integers(0, 3)), 201, 4))
     irs = draw(st.lists(_ir(), min_size=n, max_size=n))
+    flip = [i % 2 == 1 for i in range(n)]  # every second description runs with the default-text switch flipped
     if widths == "boundary":
-        widths = _boundary_widths(irs, draw(st.integers(0, 2 ** 16)))
-    return {"irs": irs, "widths": list(widths)}
+        widths = _boundary_widths(irs, flip, draw(st.integers(0, 2 ** 16)))
+    return {"irs": irs, "widths": list(widths), "flip": flip}
 
 
-def _boundary_widths(irs, salt, cap=40):
+def _boundary_widths(irs, flip, salt, cap=40):
     """Widths placed on the line lengths of the unwrapped artefacts: first the length L of the LONGEST line of every
     (description, kind) artefact - at width L everything fits exactly and nothing may change, at L-1 one line must wrap - then
     lengths of other lines. The unwrapped emission does not depend on the width, so it is computed here."""
     longest, other = set(), set()
-    for ir in irs:
+    for i, ir in enumerate(irs):
         for kind in kinds.KINDS:
             try:
-                text = kinds.emit_text(kind, domain.to_ir(ir), dict(kinds.default_opts(kind), word_wrap=False))
+                text = kinds.emit_text(kind, domain.to_ir(ir), kinds.wrap_opts(kind, flip[i], False))
             except Exception:
                 continue
             ls = sorted({len(l) for l in text.split("\n")})
@@ -101,7 +102,8 @@ def strategy(mode, knob=None):
 
 
 def valid(case):
-    return (isinstance(case, dict) and set(case) == {"irs", "widths"} and case["irs"] and all(domain.valid_ir(i) for i in case["irs"])
+    return (isinstance(case, dict) and {"irs", "widths"} <= set(case) <= {"irs", "widths", "flip"} and case["irs"] and all(domain.valid_ir(i) for i in case["irs"])
+            and len(case.get("flip") or case["irs"]) == len(case["irs"])
             and case["widths"] and all(w == "unset" or (isinstance(w, int) and w > 0) for w in case["widths"]))
 
 
@@ -117,7 +119,7 @@ def _child(batch_path, width):
     return json.loads(p.stdout.decode())
 
 
-POLICY = Policy(ignore_type_ws=True)
+POLICY = Policy(ignore_type_ws=True, sentence="same")
 
 
 def shape_tags(cir, kind, width):
@@ -150,7 +152,7 @@ def run_case(case):
     try:
         bp = os.path.join(d, "batch.json")
         with open(bp, "w") as f:
-            json.dump({"irs": case["irs"]}, f)
+            json.dump({"irs": case["irs"], "flip": case.get("flip") or []}, f)
         with ThreadPoolExecutor(max_workers=min(16, len(case["widths"]))) as ex:
             results = list(ex.map(lambda w: _child(bp, w), case["widths"]))
         for width, res in zip(case["widths"], results):
@@ -161,6 +163,8 @@ def run_case(case):
                 i, kind = key.split(":")
                 cir = case["irs"][int(i)]
                 ctx, nt = shape_tags(cir, kind, width)
+                flipped = bool((case.get("flip") or [False] * len(case["irs"]))[int(i)])
+                ctx = ctx | {"emit_default_doc=%s" % kinds.wrap_opts(kind, flipped, True)["emit_default_doc"]}
                 subcases.append((case_hash([cir, kind, width]), nt))
                 evals += 1
                 tags.add("kind=" + kind)
@@ -227,4 +231,6 @@ def focus(case, disc):
     if not m:
         return None
     w = m.group(3)
-    return {"irs": [case["irs"][int(m.group(1))]], "widths": ["unset" if w == "unset" else int(w)]}
+    idx = int(m.group(1))
+    return {"irs": [case["irs"][idx]], "widths": ["unset" if w == "unset" else int(w)],
+            "flip": [bool((case.get("flip") or [False] * len(case["irs"]))[idx])]}
